@@ -261,15 +261,33 @@ def check(ctx, run):
         if r != (1000 if count else 0) and bad is None:
             bad = "getFirstTest with %d entries folds to %s" % (count, r)
     run.ob("R3", "getFirstTest folded: entry 0, NULL for an empty array", gf.site, bad is None, witness=bad or "3 cases", what=bad or "")
+    # shuffleTests / reverseTests folded against recording stubs of the pointer array: an array is built from the registry's current
+    # first test, permuted once (with the caller's seed), and its first test becomes the registry's list
     for nm, op in (("shuffleTests", "shuffle"), ("reverseTests", "reverse")):
         f = prog.fn("TestRegistry::" + nm)
         run.analysed(f)
-        seq = [render(f, c) for c in f.calls() if (prog.callee_name(f, c) or "").startswith(ARR)]
-        asg = [(l, render(f, r)) for l, r, n in assignments(f)]
-        arr = [k for k, v in local_inits(f).items()]
-        ok = len(arr) == 1 and any(s.startswith("%s::%s(getFirstTest())" % (ARR, ARR)) or "getFirstTest()" in s for s in seq) and \
-            ("tests_", "%s.getFirstTest()" % arr[0]) in asg and any(s.startswith("%s.%s(" % (arr[0], op)) for s in seq)
-        run.ob("R3", "%s permutes an array built from the current list and stores its first test back" % nm, f.site, ok, witness={"calls": seq, "assign": asg})
+        seq = []
+        hooks = {"TestRegistry::getFirstTest": lambda *a_: 1000, ARR + "::" + op: lambda o=None, *a_: (seq.append((op, o) + tuple(x for x in a_ if isinstance(x, int))), 0)[1],
+                 ARR + "::getFirstTest": lambda o=None, *a_: (seq.append(("first", o)), 2000)[1], ARR + "::" + ("reverse" if op == "shuffle" else "shuffle"): lambda o=None, *a_: (seq.append(("other permutation", o)), 0)[1]}
+        ev = Evaluator(prog, f, env=dict({"tests_": 1000}, **{q["name"]: 4711 for q in f.params}), calls=hooks)
+        ev.pass_object = "key"
+        ev.optional_stubs = set(hooks)
+        try:
+            ev.run_blocks(f.entry, max_steps=400)
+        except Unknown as u:
+            raise AnalysisBroken("C02.R3: %s cannot be folded: %s" % (nm, u))
+        built = [t_[1] for t_ in ev.trace if str(t_[0]).startswith("construct " + ARR)]
+        objs = {x[1] for x in seq}
+        why = ""
+        if [b_[:1] for b_ in built] != [[1000]]:
+            why = "the array is built from %s, the registry's first test is 1000" % ([b_[:1] for b_ in built],)
+        elif [x[0] for x in seq] != [op, "first"] or len(objs) != 1:
+            why = "does %s on %s: expected one %s and then the array's first test, on the one array" % ([x[0] for x in seq], sorted(map(str, objs)), op)
+        elif op == "shuffle" and seq[0][2:] != (4711,):
+            why = "shuffles with %s, the caller's seed is 4711" % (seq[0][2:],)
+        elif ev.env.get("tests_") != 2000:
+            why = "the registry's list is %s afterwards, the permuted array starts with 2000" % (ev.env.get("tests_"),)
+        run.ob("R3", "%s folded: permutes an array built from the current list and stores its first test back" % nm, f.site, not why, witness=why or [str(x) for x in seq], what=why)
     ct = [f for f in prog.methods_of(ARR) if f.kind == "ctor"][0]
     run.analysed(ct)
     bad = None
